@@ -131,7 +131,14 @@ type deferred struct {
 	args []SVal
 }
 
+type touched struct {
+	typ string
+	ref *Term
+}
+
 type State struct {
+	escapeSite ssa.Instruction
+	touched   []touched
 	frames    []*Frame
 	pc        []*Term
 	heap      *Heap
@@ -145,7 +152,7 @@ type State struct {
 func (st *State) alloc() *Term { return Add(st.allocBase, IntLit(st.allocOff)) }
 
 func (st *State) clone() *State {
-	n := &State{pc: append([]*Term(nil), st.pc...), heap: st.heap, allocBase: st.allocBase, allocOff: st.allocOff,
+	n := &State{escapeSite: st.escapeSite, touched: append([]touched(nil), st.touched...), pc: append([]*Term(nil), st.pc...), heap: st.heap, allocBase: st.allocBase, allocOff: st.allocOff,
 		path: append([]string(nil), st.path...), panicking: st.panicking, recovered: st.recovered}
 	for _, f := range st.frames {
 		nf := *f
@@ -313,6 +320,7 @@ func (fc *FuncCtx) freshOf(name string, t types.Type) *Term {
 // verifyFunction generates all obligations for fn against contract c.
 func (u *Universe) verifyFunction(fn *ssa.Function, c *Contract) (fc *FuncCtx) {
 	fc = u.newFuncCtx(fn, c)
+	termDefs = map[string]*Term{}
 	defer func() {
 		if r := recover(); r != nil {
 			switch e := r.(type) {
@@ -337,6 +345,7 @@ func (u *Universe) verifyFunction(fn *ssa.Function, c *Contract) (fc *FuncCtx) {
 		fc.params[p.Name()] = Val{T: v, Typ: p.Type()}
 		st.assume(fc.wellFormed(v, p.Type(), st.allocBase))
 		st.assume(fc.typeInvariant(v, p.Type()))
+		st.assume(fc.objInvFact(st.heap, st.allocBase, v, p.Type()))
 	}
 	for _, fv := range fn.FreeVars {
 		v := fc.freshOf(fv.Name(), fv.Type())
@@ -845,6 +854,9 @@ func (ex *Exec) setVal(st *State, v ssa.Value, sv SVal) {
 		// name large terms to keep VCs small
 		n := ex.fc.d.Fresh("t", sv.T.Sort)
 		st.assume(Eq(n, sv.T))
+		if sv.T.Sort.IsSeq() {
+			termDefs[n.S] = sv.T
+		}
 		sv.T = n
 	}
 	st.top().vals[v] = sv
